@@ -1,0 +1,23 @@
+//go:build verif
+
+package vgirpc
+
+import (
+	"errors"
+	"net/http"
+)
+
+// VerifStickyResolve runs the real per-request sticky resolution
+// (installStickyOnRequestNoCtx: token open, server-id check, registry.get,
+// per-session lock) for a request bearing token as auth, releases the lock
+// again, and reports whether the outcome was session_lost. It skips only the
+// HTTP / Arrow framing around it, so concurrent callers reach registry.get in a
+// tight bunch (stress cases of C29).
+func VerifStickyResolve(h *HttpServer, token string, auth *AuthContext) (lost bool) {
+	r, _ := http.NewRequest(http.MethodPost, "/x", nil)
+	r.Header.Set(stickySessionHeader, token)
+	cleanup, err := h.installStickyOnRequestNoCtx(r, auth)
+	cleanup.ReleaseLock()
+	var sl *SessionLostError
+	return err != nil && errors.As(err, &sl)
+}
